@@ -9,7 +9,7 @@ import (
 
 func init() {
 	register("C31", propMeta{
-		Explanation: "Decides the cursor/chunk pairing of the streaming reader and writer: (R1) in reader.Read the chunk index advances on exactly the paths on which a fetched chunk has been delivered completely (single-call delivery, or the buffered remainder being exhausted) and on no partial delivery; (R2) writer.Write advances its chunk index before every successful return and only after the B-tree accepted the chunk; Encoder.Close in update mode removes chunks at increasing indexes until Find misses, failing when a removal fails.",
+		Explanation:  "Decides the cursor/chunk pairing of the streaming reader and writer: (R1) in reader.Read the chunk index advances on exactly the paths on which a fetched chunk has been delivered completely (single-call delivery, or the buffered remainder being exhausted) and on no partial delivery; (R2) writer.Write advances its chunk index before every successful return and only after the B-tree accepted the chunk; Encoder.Close in update mode removes chunks at increasing indexes until Find misses, failing when a removal fails.",
 		DoesNotCover: "Byte equality of decoded values (json.Decoder behaviour over the reader) is not decided.",
 	}, runC31)
 }
@@ -82,6 +82,72 @@ func runC31(c *Ctx) {
 	offs = g.MustFollowFrom(branchStarts(partial, 1), keep, isExit)
 	c.Offences(g, offs, r1, "Read: partial delivery keeps the remainder", f.Decl.Pos(), "readChunk retained", "the undelivered remainder is dropped")
 
+	r3 := c.Rule("R3", "reader.Read locates the chunk to deliver by the FULL key (entry key, chunk index): Find is given a key built from both; the sequential Next shortcut is taken only when the cursor's full key is the predecessor of the wanted key, and what Next lands on is compared with the wanted full key before it is delivered", 4)
+	{
+		defs := localDefs(f)
+		keyFld := w.Field("streamingdata", "reader", "key")
+		const cmpKey = "streamingdata.StreamingDataKey.Compare"
+		target := func(e ast.Node) bool {
+			return w.mentionsDeep(f, defs, e, keyFld) && w.mentionsDeep(f, defs, e, ci)
+		}
+		finds := g.callNodes("btree.BtreeInterface.Find")
+		c.Check(len(finds) >= 1, r3, "Read: chunk lookup by Find", f.Decl.Pos(), fmt.Sprintf("%d Find call(s)", len(finds)), "no Find call: chunks are not looked up by key", nil)
+		for i, fc := range finds {
+			ok := len(fc.cs.Call.Args) >= 2 && target(fc.cs.Call.Args[1])
+			c.Check(ok, r3, fmt.Sprintf("Read: Find #%d is given (entry key, chunk index)", i+1), fc.cs.Call.Pos(), "key built from r.key and r.chunkIndex", "the lookup key is not built from both the entry key and the chunk index", nil)
+		}
+		// a full-key comparison: StreamingDataKey.Compare(...) whose operands involve the wanted key
+		fullCmp := func(e ast.Expr) bool {
+			hit := false
+			ast.Inspect(e, func(n ast.Node) bool {
+				call, ok := n.(*ast.CallExpr)
+				if !ok || w.resolveCall(f, call).Key != cmpKey {
+					return true
+				}
+				if target(call) {
+					hit = true
+				}
+				return true
+			})
+			return hit
+		}
+		cmpConds := g.condNodes(fullCmp)
+		nexts := g.callNodes("btree.BtreeInterface.Next")
+		for i, nx := range nexts {
+			// the shortcut is reachable only through the `== 0` edge of a full-key comparison that also involves the cursor
+			var pre []*GNode
+			for _, cn := range cmpConds {
+				be, ok := cn.Ast.(*ast.BinaryExpr)
+				if ok && be.Op == token.EQL && w.mentionsDeep(f, defs, be, nil, "btree.BtreeInterface.GetCurrentKey") {
+					pre = append(pre, cn)
+				}
+			}
+			offs := g.notOnlyVia(pre, 1, func(n *GNode) bool { return n == nx.n })
+			if len(pre) == 0 {
+				offs = []Offence{{nx.n, nil}}
+			}
+			c.Offences(g, offs, r3, fmt.Sprintf("Read: Next shortcut #%d only from the predecessor of the wanted full key", i+1), nx.cs.Call.Pos(),
+				"guarded by cursorKey(+1).Compare(wanted) == 0", "the sequential shortcut is taken without comparing the cursor's entry key with the wanted one: when the cursor sits on another entry's chunk, Next lands on a foreign chunk and the read ends early (false EOF) or delivers foreign bytes")
+			// what Next landed on is verified against the wanted key before delivery
+			// (path-sensitive in the `found` flag Next returned: a miss is not delivered at all)
+			offs = nil
+			if fv := g.lhsVarOfCall(nx.n, nx.cs, 0); fv != nil {
+				bt := g.trackBools(fv)
+				ar := bt.Reach(g.after(nx.n), bt.initial(), nodeSet(cmpConds))
+				for _, x := range g.Find(calls("btree.BtreeInterface.GetCurrentValue")) {
+					if ar.Node(x.ID) {
+						offs = append(offs, Offence{x, ar.Path(x.ID)})
+					}
+				}
+			} else {
+				offs = []Offence{{nx.n, nil}}
+			}
+			c.Offences(g, offs, r3, fmt.Sprintf("Read: item reached by Next #%d is compared with the wanted full key before delivery", i+1), nx.cs.Call.Pos(),
+				"full-key comparison between Next and GetCurrentValue", "the item Next landed on is delivered without checking it is the wanted chunk")
+		}
+		c.Check(len(nexts) <= 1, r3, "Read: at most one sequential shortcut", f.Decl.Pos(), fmt.Sprintf("%d Next call(s)", len(nexts)), "unexpected additional Next calls", nil)
+	}
+
 	r2 := c.Rule("R2", "writer.Write advances chunkIndex before every successful return and only after the B-tree accepted the chunk; Encoder.Close removes trailing chunks until Find misses", 5)
 	fw := w.Fn("streamingdata.writer.Write")
 	gw := w.G(fw)
@@ -129,7 +195,9 @@ func runC31(c *Ctx) {
 	// success return only when Find missed (or add mode)
 	fv := gc.lhsVarOfCall(fd[0].n, fd[0].cs, 0)
 	miss := gc.condNodes(func(e ast.Expr) bool { id, ok := e.(*ast.Ident); return ok && fc.Pkg.TypesInfo.Uses[id] == fv })
-	addMode := gc.condNodes(func(e ast.Expr) bool { return fieldOfSelector(fc.Pkg.TypesInfo, e) == w.Field("streamingdata", "writer", "addOrUpdate") })
+	addMode := gc.condNodes(func(e ast.Expr) bool {
+		return fieldOfSelector(fc.Pkg.TypesInfo, e) == w.Field("streamingdata", "writer", "addOrUpdate")
+	})
 	cut := func(from *GNode, e Edge) bool { return edgeCut(miss, 2)(from, e) || edgeCut(addMode, 1)(from, e) }
 	offs = gc.ReachableWithout(cut, func(n *GNode) bool { return n.Ret != nil && gc.ClassifyReturn(n) == RetNil })
 	c.Offences(gc, offs, r2, "Close: succeeds only when no further chunk is found", fc.Decl.Pos(), "nil return only on the Find-miss edge (or in add mode)", "Close can succeed while old chunks remain")
